@@ -32,6 +32,22 @@ def gen_cases_for(seed_, n):
                 # one distinct value per sample: k samples (the literal set is folded one sample at a time)
                 samples = [{"colour": v, "n": j % 3} for j, v in enumerate(vals)]
             opts["merge"] = [["exact"]]
+        if i % 20 == 7:
+            # samples that are equal for Python (1 == 1.0 == True) but differ in JSON type, next to each other
+            a, b = rng.choice([(1, 1.0), (0, False), (1, True), (0.0, False), (10, 10.0), ([1], [1.0]), ({"k": 1}, {"k": True}), ([0, 1], [False, True])])
+            base = {"id": rng.choice([1, "x"]), "price": a}
+            samples = [dict(base), dict(base, price=b)]
+            if rng.random() < 0.5:
+                samples.append(dict(base, price=rng.choice([a, b])))
+            if rng.random() < 0.4:
+                samples = [{"wrap": smp, "n": 1} for smp in samples]
+        if i % 20 == 13:
+            # three nested models that form one merge group, with a field that is float / int / optional int among them;
+            # the sample order decides the registration (= merge) order
+            parts = [{"km": 1.5, "x": 1, "y": 2}, {"km": 1, "x": 1, "y": 2}, [{"km": 2, "x": 1, "y": 2}, {"x": 1, "y": 2}]]
+            keys = rng.sample(["alpha", "beta", "gamma", "delta"], 3)
+            samples = [{k: v} for k, v in zip(keys, parts)]
+            opts["merge"] = rng.choice([[["percent", 0.7], ["number", 10]], [["exact"]], [["percent", 0.5]], [["number", 2]]])
         cases.append({"i": i, "models": [["Root", samples]], "opts": opts, "vseed": rng.randrange(1 << 30)})
     return cases
 
